@@ -4,6 +4,7 @@ import I18n.Generated.TagSites
 import I18n.Lemmas.FmtCheckProbes
 import I18n.Lemmas.FmtCheckNumbered
 import I18n.Lemmas.FmtCheckBrace
+import I18n.Lemmas.FmtCheckBraceRender
 /-!
 # C14 — translations are flagged iff their format arguments disagree
 
@@ -948,6 +949,23 @@ theorem pybrace_reorder_silent (pfx : Extra) (srcLoc dstLoc : List Char) (omitte
     cases c with
     | mk x y z => cases x <;> cases y <;> cases z <;> simp_all [PyBrace.TySet.inter, PyBrace.TySet.isEmpty]
 
+/-- **python-brace, `reorder_silent` over RENDERED strings.**  Render any two item lists made of brace-free literal text and plain
+    fields `{name}` / `{index}` (identifiers; decimal indices within `SSIZE_MAX`): both renderings are accepted by the parser, and
+    if the fields of the translation are those of the source in any order (a permutation of the field names — in particular any
+    reordering expressible with numbered or named fields), nothing is flagged. -/
+theorem pybrace_reorder_silent_rendered (pfx : Extra) (srcLoc dstLoc : List Char) (omittedOk : Bool) {a b : List PlainItem}
+    (ha : PlainClean a) (hb : PlainClean b) (hperm : (fieldNames b).Perm (fieldNames a)) :
+    ∃ r r', PyBrace.parse (renderPlain a) = .ok r ∧ PyBrace.parse (renderPlain b) = .ok r' ∧
+      checkArgsPyBrace pfx srcLoc (braceSigOf r) dstLoc (braceSigOf r') omittedOk = .ok [] := by
+  obtain ⟨r, hr, hargs⟩ := parse_renderPlain ha
+  obtain ⟨r', hr', hargs'⟩ := parse_renderPlain hb
+  refine ⟨r, r', hr, hr', pybrace_reorder_silent pfx srcLoc dstLoc omittedOk hr hr' fun k c => ?_⟩
+  rw [hargs, hargs']
+  have := (hperm.map keyOfName |>.mem_iff (a := k))
+  constructor
+  · rintro ⟨hc, hk⟩; exact ⟨hc, by exact (show k ∈ (fieldNames b).map keyOfName from this.2 hk)⟩
+  · rintro ⟨hc, hk⟩; exact ⟨hc, this.1 hk⟩
+
 /-- **python-brace: no exception leaves `check_message` — for any context, flags and STRINGS** (no hypothesis left: the parser
     raises only its own errors, C13 `brace_error_own`, and what it reports is well formed for `check_args`). -/
 theorem pybrace_check_message_nocrash_strings (ctx : Ctx) (msg : Msg (List Char)) (fl : Flags) :
@@ -1149,6 +1167,10 @@ example : (match perlBraceParse "{a} and {b}".toList, perlBraceParse "{b}, {c}".
     | .ok a, .ok c => summarize (checkArgsPerlBrace pfx0 "msgid".toList a "msgstr".toList c false)
     | _, _ => none) =
     some [("perl-brace-format-string-unknown-argument", []), ("perl-brace-format-string-missing-argument", [])] := by decide +kernel
+/-- rendering: `{0} of {name}` and its reordering `{name}: {0}` -/
+example : renderPlain [.field "0".toList, .lit " of ".toList, .field "name".toList] = "{0} of {name}".toList := by rfl
+example : (fieldNames [PlainItem.field "name".toList, .lit ": ".toList, .field "0".toList]).Perm
+    (fieldNames [.field "0".toList, .lit " of ".toList, .field "name".toList]) := List.Perm.swap _ _ _
 /-- the cascade -/
 example : (pluralPlan cBackend none none 0 default [1]).srcLoc = "msgid".toList := by rfl
 example : (pluralPlan cBackend none none 0 default [0, 7]).omittedOk = true := by rfl
